@@ -193,8 +193,22 @@
                             :pattern ((nth_Int hs j)))))
   :pattern ((firstIdxU H hs n)))))
 
+; distinct well-known header names never denote the same header (proved from the definition: lemma C17_disjoint)
+(assert (forall ((n String)) (! (=> (sameHdrName n "Via") (and (not (sameHdrName n "CSeq")) (not (sameHdrName n "From")) (not (sameHdrName n "To")) (not (sameHdrName n "Route")) (not (sameHdrName n "Record-Route")) (not (sameHdrName n "Call-ID")) (not (sameHdrName n "Content-Length")) (not (sameHdrName n "Expires")) (not (sameHdrName n "Max-Forwards")) (not (sameHdrName n "Subscription-State")))) :pattern ((sameHdrName n "Via")))))
+(assert (forall ((n String)) (! (=> (sameHdrName n "CSeq") (and (not (sameHdrName n "Via")) (not (sameHdrName n "From")) (not (sameHdrName n "To")) (not (sameHdrName n "Route")) (not (sameHdrName n "Record-Route")) (not (sameHdrName n "Call-ID")) (not (sameHdrName n "Content-Length")) (not (sameHdrName n "Expires")) (not (sameHdrName n "Max-Forwards")) (not (sameHdrName n "Subscription-State")))) :pattern ((sameHdrName n "CSeq")))))
+(assert (forall ((n String)) (! (=> (sameHdrName n "From") (and (not (sameHdrName n "Via")) (not (sameHdrName n "CSeq")) (not (sameHdrName n "To")) (not (sameHdrName n "Route")) (not (sameHdrName n "Record-Route")) (not (sameHdrName n "Call-ID")) (not (sameHdrName n "Content-Length")) (not (sameHdrName n "Expires")) (not (sameHdrName n "Max-Forwards")) (not (sameHdrName n "Subscription-State")))) :pattern ((sameHdrName n "From")))))
+(assert (forall ((n String)) (! (=> (sameHdrName n "To") (and (not (sameHdrName n "Via")) (not (sameHdrName n "CSeq")) (not (sameHdrName n "From")) (not (sameHdrName n "Route")) (not (sameHdrName n "Record-Route")) (not (sameHdrName n "Call-ID")) (not (sameHdrName n "Content-Length")) (not (sameHdrName n "Expires")) (not (sameHdrName n "Max-Forwards")) (not (sameHdrName n "Subscription-State")))) :pattern ((sameHdrName n "To")))))
+(assert (forall ((n String)) (! (=> (sameHdrName n "Route") (and (not (sameHdrName n "Via")) (not (sameHdrName n "CSeq")) (not (sameHdrName n "From")) (not (sameHdrName n "To")) (not (sameHdrName n "Record-Route")) (not (sameHdrName n "Call-ID")) (not (sameHdrName n "Content-Length")) (not (sameHdrName n "Expires")) (not (sameHdrName n "Max-Forwards")) (not (sameHdrName n "Subscription-State")))) :pattern ((sameHdrName n "Route")))))
+(assert (forall ((n String)) (! (=> (sameHdrName n "Record-Route") (and (not (sameHdrName n "Via")) (not (sameHdrName n "CSeq")) (not (sameHdrName n "From")) (not (sameHdrName n "To")) (not (sameHdrName n "Route")) (not (sameHdrName n "Call-ID")) (not (sameHdrName n "Content-Length")) (not (sameHdrName n "Expires")) (not (sameHdrName n "Max-Forwards")) (not (sameHdrName n "Subscription-State")))) :pattern ((sameHdrName n "Record-Route")))))
+(assert (forall ((n String)) (! (=> (sameHdrName n "Call-ID") (and (not (sameHdrName n "Via")) (not (sameHdrName n "CSeq")) (not (sameHdrName n "From")) (not (sameHdrName n "To")) (not (sameHdrName n "Route")) (not (sameHdrName n "Record-Route")) (not (sameHdrName n "Content-Length")) (not (sameHdrName n "Expires")) (not (sameHdrName n "Max-Forwards")) (not (sameHdrName n "Subscription-State")))) :pattern ((sameHdrName n "Call-ID")))))
+(assert (forall ((n String)) (! (=> (sameHdrName n "Content-Length") (and (not (sameHdrName n "Via")) (not (sameHdrName n "CSeq")) (not (sameHdrName n "From")) (not (sameHdrName n "To")) (not (sameHdrName n "Route")) (not (sameHdrName n "Record-Route")) (not (sameHdrName n "Call-ID")) (not (sameHdrName n "Expires")) (not (sameHdrName n "Max-Forwards")) (not (sameHdrName n "Subscription-State")))) :pattern ((sameHdrName n "Content-Length")))))
+(assert (forall ((n String)) (! (=> (sameHdrName n "Expires") (and (not (sameHdrName n "Via")) (not (sameHdrName n "CSeq")) (not (sameHdrName n "From")) (not (sameHdrName n "To")) (not (sameHdrName n "Route")) (not (sameHdrName n "Record-Route")) (not (sameHdrName n "Call-ID")) (not (sameHdrName n "Content-Length")) (not (sameHdrName n "Max-Forwards")) (not (sameHdrName n "Subscription-State")))) :pattern ((sameHdrName n "Expires")))))
+(assert (forall ((n String)) (! (=> (sameHdrName n "Max-Forwards") (and (not (sameHdrName n "Via")) (not (sameHdrName n "CSeq")) (not (sameHdrName n "From")) (not (sameHdrName n "To")) (not (sameHdrName n "Route")) (not (sameHdrName n "Record-Route")) (not (sameHdrName n "Call-ID")) (not (sameHdrName n "Content-Length")) (not (sameHdrName n "Expires")) (not (sameHdrName n "Subscription-State")))) :pattern ((sameHdrName n "Max-Forwards")))))
+(assert (forall ((n String)) (! (=> (sameHdrName n "Subscription-State") (and (not (sameHdrName n "Via")) (not (sameHdrName n "CSeq")) (not (sameHdrName n "From")) (not (sameHdrName n "To")) (not (sameHdrName n "Route")) (not (sameHdrName n "Record-Route")) (not (sameHdrName n "Call-ID")) (not (sameHdrName n "Content-Length")) (not (sameHdrName n "Expires")) (not (sameHdrName n "Max-Forwards")))) :pattern ((sameHdrName n "Subscription-State")))))
+
 ;@chunk hdrcanon sameHdrNameDef
 ; definition of sameHdrName: equality of canonical names (lower-case, compact letter -> long name)
+(define-fun sameHdrNameDef () Bool true)
 (assert (forall ((a String) (b String)) (! (= (sameHdrName a b) (= (canonName a) (canonName b))) :pattern ((sameHdrName a b)))))
 
 
@@ -226,3 +240,17 @@
             (atoiOk (kvGet (select H_ViaParam_Params p) "rport")))
        (atoiVal (kvGet (select H_ViaParam_Params p) "rport"))
        (viaPort H_ViaParam_port H_ViaParam_Transport p)))
+
+;@chunk listeners stAddr stPort stProto
+(declare-fun stAddr (Any) String)
+(declare-fun stPort (Any) Int)
+(declare-fun stProto (Any) String)
+;@ghost smHost (Seq String)
+;@ghost smPort (Seq Int)
+;@ghost smTransport (Seq String)
+;@ghost smMsg (Seq Int)
+;@ghost stb (Seq Int)
+;@ghost popvias (Seq Int)
+;@ghost pins (Seq String)
+;@ghost pinBackends (Seq Any)
+;@ghost unpins (Seq String)
